@@ -48,7 +48,15 @@ type atomRec struct {
 	Kind   string
 	Key    float64
 	Strict bool
+	// float comparisons: the operand values and which of them are literal constants (for branch-directed re-evaluation)
+	A, B           float64
+	AConst, BConst bool
+	HasOps         bool
 }
+
+// valOver: every non-constant float term whose value is From evaluates to To instead (the compared quantity treated as
+// a free variable and moved across the comparison's boundary).
+type valOver struct{ From, To float64 }
 
 type Domain struct {
 	Lo, Hi int64 // integer symbols
@@ -67,6 +75,7 @@ type Env struct {
 	LenAlias map[string]*Term // "len:<canon>" -> term the length equals under an equality precondition
 	Alias  map[*Symbol]*Term // symbol defined as a term over other (canonically identified) symbols
 	Atoms  []atomRec
+	ValOver *valOver
 	Errs   []string
 	FnAlias map[string]string // canonical call name aliases (repo function -> reference function)
 }
@@ -282,7 +291,16 @@ func (e *Env) recAtom(kind string, d float64, strict bool) {
 	} else {
 		d = math.Abs(d)
 	}
-	e.Atoms = append(e.Atoms, atomRec{kind, d, strict})
+	e.Atoms = append(e.Atoms, atomRec{Kind: kind, Key: d, Strict: strict})
+}
+
+// atomOps attaches the operand values to the atom just recorded.
+func (e *Env) atomOps(x, y float64, t *Term) {
+	if n := len(e.Atoms); n > 0 {
+		r := &e.Atoms[n-1]
+		r.A, r.B, r.HasOps = x, y, true
+		r.AConst, r.BConst = t.Args[0].K == KConst, t.Args[1].K == KConst
+	}
 }
 
 func (e *Env) Eval(t *Term) Val {
@@ -293,6 +311,9 @@ func (e *Env) Eval(t *Term) Val {
 		return v
 	}
 	v := e.eval(t)
+	if e.ValOver != nil && v.K == TFloat && t.K != KConst && v.F == e.ValOver.From {
+		v.F = e.ValOver.To
+	}
 	e.memo[t] = v
 	return v
 }
@@ -354,6 +375,41 @@ func (e *Env) eval(t *Term) Val {
 		return Val{K: TInt, I: q}
 	case "imod":
 		d := a(1).I
+		// (A % N + rest) % N with A >= 0 and rest >= 0 at this point is (A + rest) % N: a position kept reduced while it
+		// is advanced has the discontinuities of the unreduced one
+		if num := t.Args[0]; num.Op == "lin" && d > 0 {
+			inner := -1
+			for i, x := range num.Args {
+				if x.Op == "imod" && x.Args[1] == t.Args[1] && num.Coefs[i].IsInt64() && num.Coefs[i].Int64() == 1 {
+					inner = i
+					break
+				}
+			}
+			if inner >= 0 {
+				av := e.Eval(num.Args[inner].Args[0])
+				rest := int64(0)
+				ok := av.K == TInt && av.I >= 0 && num.Off.IsInt64()
+				if ok {
+					rest = num.Off.Int64()
+					for i, x := range num.Args {
+						if i == inner {
+							continue
+						}
+						xv := e.Eval(x)
+						if xv.K != TInt || !num.Coefs[i].IsInt64() {
+							ok = false
+							break
+						}
+						rest += num.Coefs[i].Int64() * xv.I
+					}
+				}
+				if ok && rest >= 0 {
+					e.recAtom("imod-num", float64(av.I+rest), false)
+					e.recAtom("imod-den", float64(d), false)
+					return Val{K: TInt, I: (av.I + rest) % d}
+				}
+			}
+		}
 		e.recAtom("imod-num", float64(a(0).I), false)
 		e.recAtom("imod-den", float64(d), false)
 		if d == 0 {
@@ -444,16 +500,22 @@ func (e *Env) eval(t *Term) Val {
 		e.recAtom("ieq", float64(d), false)
 		return Val{K: TBool, B: d == 0}
 	case "flt":
-		d := a(0).F - a(1).F
+		x, y := a(0).F, a(1).F
+		d := x - y
 		e.recAtom("f", d, true)
+		e.atomOps(x, y, t)
 		return Val{K: TBool, B: d < 0}
 	case "fle":
-		d := a(0).F - a(1).F
+		x, y := a(0).F, a(1).F
+		d := x - y
 		e.recAtom("f", d, false)
+		e.atomOps(x, y, t)
 		return Val{K: TBool, B: d <= 0}
 	case "feq":
-		d := a(0).F - a(1).F
+		x, y := a(0).F, a(1).F
+		d := x - y
 		e.recAtom("feq", d, false)
+		e.atomOps(x, y, t)
 		return Val{K: TBool, B: d == 0}
 	case "eq":
 		x, y := a(0), a(1)
@@ -463,6 +525,11 @@ func (e *Env) eval(t *Term) Val {
 		}
 		if t.Args[1].IsNil() && t.Args[0].K != KConst {
 			return Val{K: TBool, B: h64("nil?", valKey(x))&1 == 1}
+		}
+		if x.K == TComplex && y.K == TComplex {
+			// an equality test on computed complex values is a comparison like any other: it never holds at random
+			// points, so its presence is part of the signature
+			e.recAtom("ceq", cmplx.Abs(x.C-y.C), false)
 		}
 		return Val{K: TBool, B: valKey(x) == valKey(y)}
 	case "bxor":
@@ -481,7 +548,7 @@ func (e *Env) eval(t *Term) Val {
 			return x
 		}
 		return y
-	case "tuple":
+	case "tuple", "mkstruct":
 		var vs []Val
 		for i := range t.Args {
 			vs = append(vs, a(i))
@@ -664,6 +731,12 @@ func (e *Env) evalCall(t *Term) Val {
 		return Val{K: TTuple, T: []Val{F(surrogate(name, f(0))), {K: TInt, I: 1}}}
 	case "math/cmplx.Abs":
 		return F(cmplx.Abs(vs[0].C))
+	case "math.Hypot": // cmplx.Abs(z) is math.Hypot(real(z), imag(z)) by definition
+		return F(math.Hypot(f(0), f(1)))
+	case "math.Exp2":
+		return F(math.Exp2(f(0)))
+	case "math.Log10":
+		return F(math.Log10(f(0)))
 	case "math/bits.OnesCount8":
 		return Val{K: TInt, I: int64(bits.OnesCount8(uint8(vs[0].I)))}
 	case "builtin.min":
